@@ -104,8 +104,10 @@ def h_tree(c, n):
 
     pid = topology(c, n, "any")
     a = {k: reals(c, k, n) for k in ("x", "y", "z", "r", "w")}
+    shared = mk_col(c, a["w"])  # two per-node columns given as ONE array object (e.g. weight = r_orig = radius)
+    a["w2"] = a["w"]
     t = Tree(n, pid=np.array(pid, dtype=np.int32), type=np.array([(3 * i + 1) % 5 for i in range(n)], dtype=np.int32),
-             **{k: mk_col(c, a[k]) for k in a}, k=np.arange(n, dtype=np.int32))
+             **{k: mk_col(c, a[k]) for k in a if k not in ("w", "w2")}, w=shared, w2=shared, k=np.arange(n, dtype=np.int32))
     out = sort_tree(t)
     c.prove("tree.is_new_object", out is not t and out.ndata is not t.ndata)
     c.prove("tree.input_untouched", [int(v) for v in t.pid()] == pid and [int(v) for v in t.get_ndata("k")] == list(range(n))
